@@ -136,11 +136,15 @@ wait:
 	}
 	viol, infra, n := b.judgeRaces(racePath + ".*")
 	out.races = n
-	if infra != "" {
+	res.Violations = append(res.Violations, viol...)
+	if infra != "" && len(res.Violations) == 0 {
+		// a report about the simulator's own memory with nothing else wrong in
+		// the run: harness trouble. (When the code under test shares memory
+		// between tasks, the harness's reads of that memory race too; the run's
+		// own violations then stand.)
 		out.infra = infra
 		return out
 	}
-	res.Violations = append(res.Violations, viol...)
 	if s.Prop == "C13" && len(res.Violations) == 0 && !o.noIso && len(res.PipeHashes) == len(c13Kinds) {
 		if v, infra := b.isolatedC13(base, scnPath, s, &res); infra != "" {
 			out.infra = infra
